@@ -359,6 +359,12 @@ class Mutations:
                 return {mkfresh((('[]',), r) for r in step_roots(self.roots(fn, c.args[0], seen), '[]'))}
             if f.id in FRESH_BUILTINS:
                 return {FRESH}
+            if f.id == 'getattr' and len(c.args) >= 2:
+                # some attribute of the object (whichever the name says): rooted where the object is
+                out_ = set(step_roots(self.roots(fn, c.args[0], seen), '*'))
+                if len(c.args) > 2:
+                    out_ |= self.roots(fn, c.args[2], seen)
+                return out_
             if f.id in ('next', 'getattr'):
                 return {('elem', f'{f.id}() result')}
         callees = env.resolve_call(c)
